@@ -7,6 +7,7 @@ import (
 	"net/http"
 	"strconv"
 	"strings"
+	"unicode/utf8"
 
 	"github.com/formancehq/stack/libs/go-libs/pointer"
 
@@ -177,6 +178,12 @@ func postAccountMetadata(w http.ResponseWriter, r *http.Request) {
 }
 
 func deleteAccountMetadata(w http.ResponseWriter, r *http.Request) {
+	// path segments are percent-decoded bytes: what is not text cannot be written to the log and read back
+	if !utf8.ValidString(chi.URLParam(r, "address")) || !utf8.ValidString(chi.URLParam(r, "key")) {
+		sharedapi.BadRequest(w, ErrValidation, errors.New("invalid account address or metadata key"))
+		return
+	}
+
 	if err := backend.LedgerFromContext(r.Context()).
 		DeleteMetadata(
 			r.Context(),
